@@ -1,7 +1,7 @@
 (* C19 - The POP3 server shows the maildir faithfully and deletes only on request.
    Only statements; proofs are [exact <lemma>] from Pop/Pop3Proofs.v.
    Model (Pop/Pop3.v): qmail-pop3d.c after start-up, commands.c line splitting. *)
-From NQ Require Import Pop.Pop3 Pop.Pop3Proofs Smtp.Codec Local.Mailbox.
+From NQ Require Import Pop.Pop3 Pop.Pop3Proofs Smtp.Codec Local.Mailbox Pop.Popup Pop.PopupProofs.
 Local Open Scope N_scope.
 
 (* RETR sends exactly the SMTP-style encoding (LF -> CRLF, leading dots stuffed, lone-dot
@@ -76,3 +76,45 @@ Example msgno_wraps_refuted :
   msgno (init_state [{| p_fn := [110;101;119;47;97]; p_size := 3; p_content := None |}])
         [49;56;52;52;54;55;52;52;48;55;51;55;48;57;53;53;49;54;49;55] = MOk 0.
 Proof. vm_compute. reflexivity. Qed.
+
+(* ---- qmail-popup: the session before authentication (Pop/Popup.v) ----
+   the subprogram is run only with credentials: the most recent non-empty USER argument and the PASS argument, or
+   the two words of APOP, byte for byte, followed by the greeting banner *)
+Theorem popup_credentials_verbatim : forall banner lines out f,
+  popup_session banner ust0 lines = (out, Some f) ->
+  exists pre l post user pass,
+    lines = pre ++ l :: post /\ f = fd3_of user pass banner /\ user <> [] /\
+    ( (fst (split_command l) = [112;97;115;115] /\ snd (split_command l) = pass /\ pass <> [] /\
+       exists pre1 lu mid, pre = pre1 ++ lu :: mid /\
+         fst (split_command lu) = [117;115;101;114] /\ snd (split_command lu) = user /\
+         (forall x, In x mid -> fst (split_command x) <> [117;115;101;114] \/ snd (split_command x) = []))
+      \/
+      (fst (split_command l) = [97;112;111;112] /\ split_first_space [] (snd (split_command l)) = Some (user, pass)) ).
+Proof. exact credentials_verbatim_l. Qed.
+Print Assumptions popup_credentials_verbatim.
+Theorem popup_no_subprogram_without_credentials : forall banner lines st,
+  (forall l, In l lines -> fst (split_command l) <> [112;97;115;115] /\ fst (split_command l) <> [97;112;111;112]) ->
+  snd (popup_session banner st lines) = None.
+Proof. exact no_subprogram_without_credentials_l. Qed.
+Print Assumptions popup_no_subprogram_without_credentials.
+Theorem popup_pass_needs_user : forall banner lines,
+  (forall l, In l lines -> fst (split_command l) <> [117;115;101;114] /\ fst (split_command l) <> [97;112;111;112]) ->
+  snd (popup_session banner ust0 lines) = None.
+Proof. exact pass_needs_user_l. Qed.
+Print Assumptions popup_pass_needs_user.
+(* the three fields handed over contain no NUL, so a client cannot forge a field boundary *)
+Theorem popup_fields_cannot_be_forged : forall banner lines out f,
+  has 0 banner = false -> popup_session banner ust0 lines = (out, Some f) ->
+  exists user pass,
+    f = user ++ [0] ++ pass ++ [0] ++ [60] ++ banner ++ [62; 0] /\ has 0 user = false /\ has 0 pass = false /\
+    (forall u' p' b', has 0 u' = false -> has 0 p' = false -> has 0 b' = false ->
+       f = fd3_of u' p' b' -> u' = user /\ p' = pass /\ b' = banner).
+Proof. exact fields_cannot_be_forged_l. Qed.
+Print Assumptions popup_fields_cannot_be_forged.
+Theorem popup_unknown_verb_refused : forall banner st l,
+  fst (split_command l) <> [117;115;101;114] -> fst (split_command l) <> [112;97;115;115] ->
+  fst (split_command l) <> [97;112;111;112] -> fst (split_command l) <> [113;117;105;116] ->
+  fst (split_command l) <> [110;111;111;112] ->
+  popup_step banner st l = (st, UReply (u_err t_authfirst)).
+Proof. exact unknown_verb_l. Qed.
+Print Assumptions popup_unknown_verb_refused.
